@@ -673,6 +673,14 @@ func c17Run(s *c17Scn) verdict {
 	var err error
 
 	if s.Variant == "" {
+		// a history: every variant of this platform was loaded in this process before the default is asked for - the default
+		// is still the default (a variant is merged into a copy, never into what later loads start from)
+		for _, vn := range d.Variants {
+			_, _ = platform.NewPlatformVariant(s.Name, vn, "sim", opts...)
+		}
+	}
+
+	if s.Variant == "" {
 		p, err = platform.NewPlatform(s.Name, "sim", opts...)
 	} else {
 		p, err = platform.NewPlatformVariant(s.Name, s.Variant, "sim", opts...)
